@@ -537,35 +537,3 @@ def check_c12(ctx, R):
                               "%s: the work-list extension filters with `%s`; it must exclude exactly the hierarchical pin it came from (x != hpin)" % (f.qualname, short(t, 50)))
     R.count("closure exclusion filters (H9)", n9)
     R.floor("closure exclusion filters (H9)", 2)
-    # H10
-    R.rule("H10", "the owning-instance reference taken before a loop over a wire's pins is not overwritten inside the loop")
-    n10 = 0
-    for m in H_MODULES:
-        mod = P.module(UTIL + m + ".py")
-        for f in mod.all_funcs():
-            for lp in walk_local(f.node):
-                if not (isinstance(lp, ast.For) and norm(lp.iter).endswith(".pins")):
-                    continue
-                # variables bound from a `.parent` chain in the statements preceding the loop in the same block
-                par = getattr(lp, "_parent", None)
-                blk = None
-                for b in ("body", "orelse"):
-                    if lp in getattr(par, b, []):
-                        blk = getattr(par, b)
-                if blk is None:
-                    continue
-                before = blk[: blk.index(lp)]
-                owners = {norm(a.targets[0]) for a in before if isinstance(a, ast.Assign) and isinstance(a.targets[0], ast.Name)
-                          and isinstance(a.value, ast.Attribute) and a.value.attr == "parent"}
-                if not owners:
-                    continue
-                n10 += 1
-                clobbered = [a for st in lp.body for a in ast.walk(st) if isinstance(a, ast.Assign) and any(norm(t) in owners for t in a.targets)]
-                if clobbered:
-                    R.bad("H10", "%s|%s overwritten" % (f.key, norm(clobbered[0].targets[0])), f.loc(clobbered[0]),
-                          "%s: `%s` overwrites the reference of the instance that owns the wire inside the loop over the wire's pins; pins visited afterwards are "
-                          "placed under the wrong instance and dropped as invalid" % (f.qualname, short(clobbered[0], 60)))
-                else:
-                    R.ok("H10", "%s: loop over %s keeps %s" % (f.qualname, norm(lp.iter), sorted(owners)), f.loc(lp))
-    R.count("pin loops with an owning-instance reference (H10)", n10)
-    R.floor("pin loops with an owning-instance reference (H10)", 4)
